@@ -4,11 +4,11 @@
 From Coq Require Import ZArith NArith List.
 From Coq Require Extraction.
 From Coq Require Import ExtrOcamlBasic.
-From AMS Require Import Models SaveCrash.
+From AMS Require Import Models SaveCrash GatewayInv OpsDrv.
 Extraction Language OCaml.
 Extraction "model.ml"
   Z.add Z.mul Z.opp Z.of_N Z.of_nat N.add N.mul
-  init_world recv_drv send_drv setver_drv decode_at encode
+  init_world recv_drv send_drv setver_drv step_op_drv decode_at encode
   w_put_node w_add_child w_set_value w_set_reboot w_set_sleeping mk_node
   show_step show_world show_dec show_msg
   utf8_encode utf8_decode py_int rstrip split splitn join str_of_Z
